@@ -509,7 +509,18 @@ func (e *Env) c04CloseConnectionAs(rule, typ string) {
 	li := e.locksets(g)
 	n0 := 0
 	for _, n := range g.Nodes {
-		if !(n.IsBuiltin("delete") || n.IsBuiltin("len") || n.IsBuiltin("close")) {
+		isMapRead := false
+		switch x := n.Instr.(type) {
+		case *ssa.Lookup:
+			if f := fieldOfLoad(x.X); f != nil && f.Name() == "RemotePorts" {
+				isMapRead = true // `_, ok := pt.RemotePorts[name]`: a read of the map another closer deletes from
+			}
+		case *ssa.Range:
+			if f := fieldOfLoad(x.X); f != nil && f.Name() == "RemotePorts" {
+				isMapRead = true
+			}
+		}
+		if !(n.IsBuiltin("delete") || n.IsBuiltin("len") || n.IsBuiltin("close") || isMapRead) || n.Kind == core.KAfter {
 			continue
 		}
 		n0++
